@@ -155,6 +155,9 @@ func TestC16(t *testing.T) {
 					// carries the drawn expiry; a base item that is appended to must stay alive
 					if (c.Kind == wire.Set && path == "set") || (c.Kind == wire.Add && path == "add") || (c.Kind == wire.Replace && path == "replace") {
 						c.Exptime = ttl
+						// neither must the quiet flag of the request (setq/addq/replaceq), which the
+						// orchestrators hand down unchanged
+						c.Quiet = (kl+vl)%2 == 1
 					}
 					res, intact := execHandler(h, c, kl%3*4)
 					if res.Err != nil {
@@ -307,7 +310,7 @@ func TestC16Replay(t *testing.T) {
 		if c.Path == "set" || c.Path == "add" || c.Path == "replace" {
 			ttl = ttlOf((c.Keylen+c.Valuelen+len(c.Path))%len(ttlClassNames), nowUnix())
 		}
-		execHandler(h, wire.Cmd{Kind: wire.Set, Key: key, Value: val, Flags: 9, Exptime: ttl}, 0)
+		execHandler(h, wire.Cmd{Kind: wire.Set, Key: key, Value: val, Flags: 9, Exptime: ttl, Quiet: (c.Keylen+c.Valuelen)%2 == 1}, 0)
 	}
 	if msg := c16Check(f.Log(), key, val, 9); msg != "" {
 		t.Fatalf("C16 replay keylen %d valuelen %d: %s", c.Keylen, c.Valuelen, msg)
